@@ -41,7 +41,8 @@ Print Assumptions C05_wrapped.
    three or four words ending in --help / -h  (the token tables are the shipped ones) *)
 Theorem C05_help_shape : forall tokens, is_help tokens = true <->
   (exists b t, tokens = [b; t] /\ (In t HELP_WORDS \/ In t HELP_FLAGS2 \/ In t HELP_TRAILING)) \/
-  (exists l r, tokens = r ++ [l] /\ (3 <= length tokens <= 4)%nat /\ In l HELP_TRAILING).
+  (exists b mid l, tokens = b :: mid ++ [l] /\ (1 <= length mid <= 2)%nat /\ In l HELP_TRAILING /\
+                   forallb subcommand_word mid = true).
 Proof. exact is_help_shape. Qed.
 Print Assumptions C05_help_shape.
 
